@@ -267,6 +267,32 @@ def client_req(req):
     return cfg, qs
 
 
+def tcp_sent_check(q, f):
+    """C14/C16 on the implementation alone: a raw answer that came over TCP is exactly the N bytes the
+    scripted server announced AND sent on that connection (never a short success padded with whatever
+    the buffer held before)"""
+    m = re.match(r"ok:(\d+):([0-9a-f]*)$", f.get("res", ""))
+    if not m or q.get("api") != "raw" or f.get("ntcp", "0") == "0":
+        return None
+    script = q.get("tcp", "-")
+    if script in ("-", ""):
+        return None
+    entry = script.split(";")[0]
+    tmpl = "".join(i for i in entry.split(",") if not re.fullmatch(r"p\d+|c|h|z|\.", i))
+    if not re.fullmatch(r"[0-9a-f]{4}", tmpl[:4]):
+        return None
+    n, body = int(tmpl[:4], 16), tmpl[4:]
+    got_n, got = int(m.group(1)), m.group(2)
+    if got_n != n:
+        return "the TCP prefix announced %d bytes, %d were returned" % (n, got_n)
+    if len(body) < 2 * n:
+        return "short success: the server sent %d of the %d announced bytes and closed, the call returned Ok(%d)" % (len(body) // 2, n, n)
+    exp = body[:2 * n]
+    if len(got) == 2 * n and n >= 2 and exp[4:] != got[4:] and "I" not in exp[4:]:
+        return "the bytes returned differ from the %d bytes the server sent" % n
+    return None
+
+
 def client_oracle(req, ans):
     """what the client properties demand of an answer line, judged without the model"""
     c = crash_oracle(req, ans)
@@ -289,6 +315,9 @@ def client_oracle(req, ans):
             return "the query failed with %s (only a response, Timeout or a TCP framing error may end it)" % res[4:]
         if res.startswith("err:IoError(UnexpectedEof)") and f.get("ntcp") == "0":
             return "an I/O error ended a UDP-only exchange"
+        c = tcp_sent_check(q, f)
+        if c:
+            return c
         ms = int(f.get("ms", "0"))
         slack = 150
         if ms > lt + slack and q.get("drop", "none") == "none":
@@ -719,6 +748,12 @@ def truth_oracle(req, ans):
     t = req.split(" ")
     exp = [x for x in t[2:] if x.startswith("exp=")]
     if not exp:
+        n = len(t[1]) // 2 if len(t) > 1 else 0
+        if n > 65535:
+            # C02/C01: MessageReader takes messages of at most 65535 bytes and says so for longer buffers
+            parts = ans.split(" | ")
+            if len(parts) < 2 or parts[1] != "S=!E:MessageTooLong(%d)" % n:
+                return "a buffer of %d bytes was not refused with MessageTooLong(%d): %s" % (n, n, ans[:100])
         return None
     want = exp[0][4:]
     got = ans.replace(" ", "")
@@ -1119,8 +1154,11 @@ PROPS = {
         level_note="Panics at documented debug assertions and checked counter arithmetic are allowed by this property and by the "
                    "theorem (`noUB`). Trusted: Lean kernel; model of every unchecked site in cursor.rs/macros.rs/utils.rs.",
         streams=[dict(name="readerx"), dict(name="xmark"), dict(name="reader", quick=8000, impl_oracle=reader_oracle),
-                 dict(name="rdata", quick=10000), dict(name="nameeq", quick=6000)],
-        explanation="C17: api_no_ub and companions; `readerx` = arbitrary call orders with stale markers.",
+                 dict(name="rdata", quick=10000), dict(name="nameeq", quick=6000),
+                 dict(name="query", quick=10000, impl_oracle=query_oracle)],
+        explanation="C17: api_no_ub and companions; `readerx` = arbitrary call orders with stale markers; the write side "
+                    "(the unchecked stores of the query encoder, reached from every client's query calls) is C11.writer_safe "
+                    "with the `query` stream on tight buffers.",
     ),
     "C03": dict(
         level="proof", module="Rsdns.Props.C03",
